@@ -1,5 +1,5 @@
 #!/bin/bash
 # run every claimed check (quick) in parallel, 6 at a time; print the summary lines
-cd /verif
+cd "$(dirname "$0")/.."
 props=$(python3 -c "import json;print(' '.join(c['property_id'] for c in json.load(open('MANIFEST.json'))['checks']))")
 printf '%s\n' $props | xargs -P 6 -I{} sh -c './check {} --tier '"${1:-quick}"' > /tmp/runall_{}.log 2>&1; tail -1 /tmp/runall_{}.log | cut -c1-220; grep -h "^VIOLATION" /tmp/runall_{}.log | head -2'
